@@ -2,6 +2,7 @@ package props
 
 import (
 	"bytes"
+	"encoding/hex"
 	"fmt"
 	"math/big"
 	"strings"
@@ -538,6 +539,48 @@ func (y *c15Sys) Check(s *c15State) *engine.Violation {
 	// host height recorded = model
 	if h, err := s.w.K.HostValidatorStore.GetLastHeight(s.ctx); (err != nil && s.set != "") || h != s.hostH {
 		return viol("valset-replaced-only-by-higher-height-from-configured-client", "recorded validator-set height %d, model %d (err=%v)", h, s.hostH, err)
+	}
+	// the recorded set is exactly the set of the last accepted refresh (keys and powers), nothing more
+	if vals, err := s.w.K.HostValidatorStore.GetAllValidators(s.ctx); err != nil {
+		return viol("valset-replaced-only-by-higher-height-from-configured-client", "cannot read the recorded validator set: %v", err)
+	} else {
+		got := map[string]int64{}
+		for _, v := range vals {
+			ca, _ := v.GetConsAddr()
+			got[hex.EncodeToString(ca)] = v.GetConsensusPower(sdk.DefaultPowerReduction)
+		}
+		want := map[string]int64{}
+		if s.set != "" {
+			rs := c15Sets[s.set]
+			for i, k := range rs.vals {
+				want[hex.EncodeToString(ed25519PubAddr(k))] = rs.powers[i]
+			}
+		}
+		if fmt.Sprint(got) != fmt.Sprint(want) {
+			return viol("valset-replaced-only-by-higher-height-from-configured-client", "the recorded L1 validator set holds %d validators %v, the last accepted refresh (%s) has %d %v: a refresh must replace the set, not merge into it", len(got), got, s.set, len(want), want)
+		}
+	}
+	// validators of the set that is NOT recorded (recorded before, or never) sign everything: nothing may change
+	{
+		other := "V'"
+		if s.set == "V'" {
+			other = y.initial
+		}
+		var votes []c15Vote
+		for _, k := range c15Sets[other].vals {
+			votes = append(votes, c15Vote{k, shPriceQ})
+		}
+		nn := int64(0)
+		for _, p := range s.prices(s.ctx) {
+			if p.has && p.ts.UnixNano() > nn {
+				nn = p.ts.UnixNano()
+			}
+		}
+		y.probes.Add(1)
+		bctx, _ := s.ctx.CacheContext()
+		if _, _, v := y.update(s, bctx, "executor", votes, uint64(s.hostH+1), nn+1_000_000_000, fmt.Sprintf("set=%s votes=all of %s sign q", s.set, other)); v != nil {
+			return tagged(v, "votes", "other-set")
+		}
 	}
 	full := s.depth <= y.probeDepth // full shape matrix only near the root; the thinned family everywhere
 	// Mode P: every combination of vote shapes
